@@ -25,7 +25,74 @@ def axis_points(n, half, rnd):
     return sorted(pts)
 
 
+def lattice(real, bound, L, n, rnd, out, tag):
+    """Evaluate the pair (real, bound) on the lattice of the minimum-image cube of a box of length L."""
+    worst = (0.0, None)
+    count = 0
+    pts = axis_points(n, L / 2, rnd)
+    trans = sorted(set(pts[::max(1, len(pts) // (n + 4))]) | {0.0, L / 2, -L / 2, L / 2 * 0.9999, L / 2 * 0.99})
+    for direction in range(3):
+        vel = [0.0, 0.0, 0.0]
+        vel[direction] = 1.0
+        others = [d for d in range(3) if d != direction]
+        for a in pts:
+            for b in trans:
+                for c in trans:
+                    sep = [0.0, 0.0, 0.0]
+                    sep[direction], sep[others[0]], sep[others[1]] = a, b, c
+                    for c1c2 in (1.0, -1.0):
+                        q = real.derivative(vel, sep, 1.0, c1c2)
+                        qb = bound.derivative(vel, sep, 1.0, c1c2)
+                        count += 1
+                        if q > 0 and qb > 0 and q / qb > worst[0]:
+                            worst = (q / qb, [L, direction, sep, c1c2])
+                        out.write(json.dumps(dict(q=fkey(q), qb=fkey(qb), L=L, d=direction, s=sep, c=c1c2, tag=tag)) + "\n")
+    return count, worst
+
+
+def config_pairs():
+    """config <ini> <seed> <n> <out>: the (potential, bounding potential) objects the real factory builds for the
+    handlers of a shipped configuration that use the nearest-image 1/r bound."""
+    import os
+    from configparser import ConfigParser
+    import jellyfysh
+    from jellyfysh.base import factory
+    from jellyfysh.base.strings import to_camel_case
+    from harness.recorder import is_dominating_pair
+    ini, seed, n, path = sys.argv[2], int(sys.argv[3]), int(sys.argv[4]), sys.argv[5]
+    pkg = os.path.dirname(os.path.abspath(jellyfysh.__file__))
+    cfg = ConfigParser()
+    cfg.read(os.path.join(pkg, ini))
+    for sec in cfg.sections():
+        for opt, val in cfg.items(sec):
+            if opt == "filename":
+                cfg.set(sec, opt, os.path.join(pkg, val) if val.startswith("config_files/") else os.path.basename(val))
+    rnd = random.Random(seed)
+    import contextlib
+    with open(os.devnull, "w") as devnull, contextlib.redirect_stdout(devnull):
+        factory.build_from_config(cfg, to_camel_case(cfg.get("Run", "setting")), "jellyfysh.setting")
+        mediator = factory.build_from_config(cfg, to_camel_case(cfg.get("Run", "mediator")), "jellyfysh.mediator")
+    out = open(path, "w")
+    seen = set()
+    total, worst = 0, (0.0, None)
+    for h in mediator._event_handlers_list:
+        if not is_dominating_pair(h):
+            continue
+        key = (type(h).__name__, h._potential._prefactor, h._bounding_potential._prefactor)
+        if key in seen:
+            continue
+        seen.add(key)
+        c, w = lattice(h._potential, h._bounding_potential, h._potential._system_length, n, rnd, out, type(h).__name__)
+        total += c
+        if w[0] > worst[0]:
+            worst = w
+    out.close()
+    json.dump(dict(points=total, max_ratio=worst[0], at=worst[1], pairs=len(seen)), sys.stdout)
+
+
 def main():
+    if sys.argv[1] == "config":
+        return config_pairs()
     seed, n, path = int(sys.argv[2]), int(sys.argv[3]), sys.argv[4]
     rnd = random.Random(seed)
     out = open(path, "w")
